@@ -173,17 +173,17 @@ def variables(n):
     return names
 
 
-def symbolic_vals(n):
-    v = {nm: sym(nm) for nm in SC + ['annual_heating_demand', 'electricity_cost_to_buy']}
+def symbolic_vals(n, pre=''):
+    v = {nm: sym(pre + nm) for nm in SC + ['annual_heating_demand', 'electricity_cost_to_buy']}
     for a in ARR_SP + ['annualngcost']:
-        v[a] = [sym(f'{a}[{i}]') for i in range(n)]
+        v[a] = [sym(f'{pre}{a}[{i}]') for i in range(n)]
     return v
 
 
-def float_vals(inputs, n):
-    v = {nm: float(inputs.get(nm, 0.0)) for nm in SC + ['annual_heating_demand', 'electricity_cost_to_buy']}
+def float_vals(inputs, n, pre=''):
+    v = {nm: float(inputs.get(pre + nm, 0.0)) for nm in SC + ['annual_heating_demand', 'electricity_cost_to_buy']}
     for a in ARR_SP + ['annualngcost']:
-        v[a] = [float(inputs.get(f'{a}[{i}]', 0.0)) for i in range(n)]
+        v[a] = [float(inputs.get(f'{pre}{a}[{i}]', 0.0)) for i in range(n)]
     return v
 
 
@@ -191,6 +191,13 @@ def concrete(cfg, inputs):
     em, eu, pt, n = EconomicModel(cfg['em']), EndUseOptions(cfg['eu']), PlantType(cfg['pt']), cfg['L']
     v = float_vals(inputs, n)
     e, m = build(v, em, eu, pt, n)
+    if cfg.get('after_an_earlier_call'):
+        # the earlier evaluation in the same process, on its own inputs
+        e0, m0 = build(float_vals(inputs, n, 'first.'), em, eu, pt, n)
+        try:
+            E.CalculateLCOELCOHLCOC(e0, m0)
+        except ZeroDivisionError:
+            pass
     try:
         out = E.CalculateLCOELCOHLCOC(e, m)
         ref = oracle(v, em, eu, pt, n)
@@ -209,6 +216,11 @@ def units(tier, seed):
             us.append({'em': em.value, 'L': n})
     for (kind, em, L, K, addon) in CALC_BOUNDS[tier]:
         us.append({'harness': 'calculate', 'kind': kind, 'em': em, 'L': L, 'K': K, 'addon': addon})
+    # the levelized cost of a run is the formula on THAT run's inputs also when another evaluation took place earlier in the same process
+    # (client, Monte-Carlo worker, a loop over Models): two evaluations on independent symbolic inputs, the second one is checked
+    for em in (EconomicModel.FCR, EconomicModel.STANDARDIZED_LEVELIZED_COST, EconomicModel.BICYCLE):
+        for n in ((2,) if tier == 'quick' else (2, 3)):
+            us.append({'em': em.value, 'L': n, 'history': 2})
     return us
 
 
@@ -376,12 +388,31 @@ def run_unit(unit):
         return
     em, n = EconomicModel(unit['em']), unit['L']
     tmo = 20000 if unit['tier'] == 'quick' else 120000
+    hist = bool(unit.get('history'))
+    HIST_PLANTS = (PlantType.SUB_CRITICAL_ORC, PlantType.ABSORPTION_CHILLER, PlantType.HEAT_PUMP, PlantType.DISTRICT_HEATING, PlantType.INDUSTRIAL)
+    HIST_USES = (EndUseOptions.ELECTRICITY, EndUseOptions.HEAT, EndUseOptions.COGENERATION_TOPPING_EXTRA_HEAT)
     for eu in EndUseOptions:
         for pt in PlantType:
+            if hist and (eu not in HIST_USES or pt not in HIST_PLANTS or (eu != EndUseOptions.HEAT and pt != PlantType.SUB_CRITICAL_ORC)):
+                continue
             cfg = {'em': em.value, 'eu': eu.value, 'pt': pt.value, 'L': n, 'names': f'{em.name}/{eu.name}/{pt.name}'}
+            if hist:
+                cfg['after_an_earlier_call'] = True
             log = harness.UnitLog(cfg)
 
             def fn():
+                if hist:
+                    core.HASH_CONST = True      # whether a key kept from the first call equals one of the second call is the solver's decision
+                    try:
+                        v0 = symbolic_vals(n, 'first.')
+                        e0, m0 = build(v0, em, eu, pt, n)
+                        E.CalculateLCOELCOHLCOC(e0, m0)
+                        v = symbolic_vals(n)
+                        e, m = build(v, em, eu, pt, n)
+                        out = E.CalculateLCOELCOHLCOC(e, m)
+                    finally:
+                        core.HASH_CONST = False
+                    return v, out, oracle(v, em, eu, pt, n)
                 v = symbolic_vals(n)
                 e, m = build(v, em, eu, pt, n)
                 out = E.CalculateLCOELCOHLCOC(e, m)
@@ -400,6 +431,8 @@ def run_unit(unit):
                 v, out, ref = pr.value
                 c = pr.ctx
                 zvars = {nm: z3.Real(nm) for nm in variables(n)}
+                if hist:
+                    zvars.update({'first.' + nm: z3.Real('first.' + nm) for nm in variables(n)})
                 # reachability twin: concrete witness first (example values are a model of the path condition)
                 ex = example_inputs(n)
                 wit = [zvars[k] == core.rv(val) for k, val in ex.items()]
@@ -414,11 +447,22 @@ def run_unit(unit):
                     if z3.is_true(z3.simplify(prop)):
                         log['trivial'] += 1
                     robust = z3.And(lo - lr > 1e-3, lo - lr < 1e6) if False else None
-                    harness.discharge(log, c, f'{nm} == reference', prop, zvars, lambda inp: concrete(cfg, inp),
+                    def hist_probe():
+                        # first call on (a scaled copy of) the example values; the second call differs from it in exactly one scalar - what a
+                        # value kept from the first call would have to depend on.  Every probe uses its own scaling, so that something kept
+                        # by an earlier probe in this process cannot stand in for the first call of a later one.
+                        for k_, X in enumerate(SC):
+                            base = {a: b * (1 + 0.01 * (k_ + 1)) for a, b in example_inputs(n).items()}
+                            d = dict(base)
+                            d.update({'first.' + a: b for a, b in base.items()})
+                            d[X] = base.get(X, 0.0) * 0.5 + 0.01
+                            yield d
+                    harness.discharge(log, c, f'{nm} == reference' + (' (second evaluation in one process)' if hist else ''), prop, zvars, lambda inp: concrete(cfg, inp),
                                       timeout_ms=tmo, sample=(eu == EndUseOptions.ELECTRICITY and pt == PlantType.SUB_CRITICAL_ORC),
-                                      desc=f'{nm}_impl != {nm}_ref under path condition; {cfg["names"]} L={n}')
+                                      desc=f'{nm}_impl != {nm}_ref under path condition; {cfg["names"]} L={n}', probe=(hist_probe if hist else None))
                 # encoding self-check: evaluate symbolic terms at the example point vs the float run
-                _selfcheck(log, cfg, out, zvars, ex)
+                if not hist:
+                    _selfcheck(log, cfg, out, zvars, ex)
             if stub_gap:
                 log['inconclusive'].append({'obligation': 'LCOE/LCOH/LCOC == reference (level A)', 'why': 'the function reads state outside its documented inputs: ' + stub_gap[:120]})
             yield log.result()
